@@ -327,6 +327,9 @@ Proof. unfold rden, ending. cbn [paths filter snd]. destruct (key_eqb k IdR); re
 Lemma out_app k l1 l2 : out k (l1 ++ l2) = out k l1 ++ out k l2.
 Proof. apply filter_app. Qed.
 
+Lemma out_single_eq' x e : eL e = x -> out x [e] = [e].
+Proof. intro H. unfold out. cbn [filter]. rewrite H, key_eqb_refl. reflexivity. Qed.
+
 Lemma in_out k e es : In e (out k es) <-> In e es /\ eL e = k.
 Proof. unfold out. rewrite filter_In, key_eqb_eq. reflexivity. Qed.
 
@@ -647,3 +650,187 @@ Qed.
 Lemma denote_gadd A B : length A = length B -> std_form A = true -> std_form B = true ->
   peq (denote (gadd A B)) (denote A ++ denote B).
 Proof. intros Hl HA HB. exact (proj2 (proj2 (gadd_rden A B 0%nat Hl HA HB))). Qed.
+
+(* ------------------------------------------------------------------ MPO.plus_identity *)
+Lemma denote_gplus_id a b g : g <> [] -> std_form g = true ->
+  peq (denote (gplus_id a b g)) ((a, []) :: pscale b (denote g)).
+Proof.
+  intros Hg Hs. destruct g as [|es g]; [contradiction|].
+  cbn [std_form forallb] in Hs. apply andb_true_iff in Hs. destruct Hs as [_ Hs].
+  unfold denote. cbn [gplus_id]. rewrite !rden_cons, out_app, flat_map_app.
+  set (f := fun e => if key_eqb (eL e) IdL then mkE (eL e) (eR e) (eop e) (cmul b (ew e)) else e).
+  assert (E1 : out IdL (map f es) = map f (out IdL es)).
+  { unfold out. rewrite filter_map_comm. f_equal. apply filter_ext_in'. intros e _.
+    unfold f. destruct (key_eqb (eL e) IdL) eqn:E; [cbn [eL]; exact E|exact E]. }
+  rewrite E1, flat_map_map. rewrite (out_single_eq' IdL) by reflexivity.
+  cbn [flat_map eR]. rewrite app_nil_r, (rden_IdR_std g Hs). cbn [map]. unfold mstep at 2.
+  cbn [ew eop fst snd consop Z.eqb]. rewrite cmul_1_r.
+  apply peq_trans with ([(a, [])] ++ pscale b (flat_map (fun e => map (mstep 0 e) (rden g 1 (eR e))) (out IdL es)));
+    [|apply peq_refl].
+  eapply peq_trans; [apply peq_app_comm|]. apply peq_app; [apply peq_refl|].
+  unfold pscale. rewrite map_flat_map.
+  rewrite (flat_map_ext_in' (fun x => map (mstep 0 (f x)) (rden g 1 (eR (f x))))
+             (fun x => map (fun m => (cmul b (fst m), snd m)) (map (mstep 0 x) (rden g 1 (eR x)))));
+    [apply peq_refl|].
+  intros e He. apply in_out in He. destruct He as [_ He]. unfold f. rewrite He. cbn [key_eqb eR].
+  rewrite map_map. apply map_ext. intros [c v]. unfold mstep. cbn [ew eop fst snd].
+  rewrite cmul_assoc. reflexivity.
+Qed.
+
+(* ------------------------------------------------------------------ completeness of peqb *)
+Lemma letter_cmp_antisym x y : letter_cmp y x = CompOpp (letter_cmp x y).
+Proof.
+  unfold letter_cmp. rewrite (Nat.compare_antisym (fst x) (fst y)).
+  destruct (Nat.compare (fst x) (fst y)); cbn [CompOpp]; try reflexivity. apply Z.compare_antisym.
+Qed.
+
+Lemma word_cmp_antisym u : forall v, word_cmp v u = CompOpp (word_cmp u v).
+Proof.
+  induction u as [|x u IH]; intros [|y v]; cbn [word_cmp CompOpp]; try reflexivity.
+  rewrite (letter_cmp_antisym x y). destruct (letter_cmp x y); cbn [CompOpp]; try reflexivity. apply IH.
+Qed.
+
+Lemma word_cmp_gt_lt u v : word_cmp u v = Gt -> word_cmp v u = Lt.
+Proof. intro H. rewrite (word_cmp_antisym u v), H. reflexivity. Qed.
+
+Lemma letter_cmp_lt x y : letter_cmp x y = Lt <->
+  (fst x < fst y)%nat \/ (fst x = fst y /\ snd x < snd y).
+Proof.
+  unfold letter_cmp. destruct (Nat.compare_spec (fst x) (fst y)) as [E|E|E].
+  - rewrite Z.compare_lt_iff. split; intro H; lia.
+  - split; intro H; [lia|reflexivity].
+  - split; intro H; [discriminate H|lia].
+Qed.
+
+Lemma letter_cmp_trans x y z : letter_cmp x y = Lt -> letter_cmp y z = Lt -> letter_cmp x z = Lt.
+Proof. rewrite !letter_cmp_lt. lia. Qed.
+
+Lemma word_cmp_trans u : forall v t, word_cmp u v = Lt -> word_cmp v t = Lt -> word_cmp u t = Lt.
+Proof.
+  induction u as [|x u IH]; intros [|y v] [|z t] H1 H2; cbn [word_cmp] in *;
+    try discriminate H1; try discriminate H2; try reflexivity.
+  destruct (letter_cmp x y) eqn:E1; try discriminate H1.
+  - apply letter_cmp_eq in E1. subst y. destruct (letter_cmp x z); try discriminate H2; try reflexivity.
+    eapply IH; eassumption.
+  - destruct (letter_cmp y z) eqn:E2; try discriminate H2.
+    + apply letter_cmp_eq in E2. subst z. rewrite E1. reflexivity.
+    + rewrite (letter_cmp_trans x y z E1 E2). reflexivity.
+Qed.
+
+Definition mlt (m n : mono) : Prop := word_cmp (snd m) (snd n) = Lt.
+Definition wlb (x : word) (p : poly) : Prop := Forall (fun n => word_cmp x (snd n) = Lt) p.
+
+Lemma wlb_pinsert x m p : wlb x p -> word_cmp x (snd m) = Lt -> wlb x (pinsert m p).
+Proof.
+  unfold wlb. intros Hp Hm. induction p as [|[c v] t IH]; cbn [pinsert].
+  - constructor; [exact Hm|constructor].
+  - inversion Hp as [|? ? Hv Ht]; subst. cbn [snd] in Hv.
+    destruct (word_cmp (snd m) v).
+    + constructor; [exact Hv|exact Ht].
+    + constructor; [exact Hm|exact Hp].
+    + constructor; [exact Hv|apply IH; exact Ht].
+Qed.
+
+Lemma pinsert_sorted m p : StronglySorted mlt p -> StronglySorted mlt (pinsert m p).
+Proof.
+  induction 1 as [|[c v] t Ht IH Hv]; cbn [pinsert].
+  - constructor; constructor.
+  - destruct (word_cmp (snd m) v) eqn:E.
+    + constructor; [exact Ht|exact Hv].
+    + constructor; [constructor; assumption|]. constructor; [exact E|].
+      eapply Forall_impl; [|exact Hv]. intros n Hn. unfold mlt in *. cbn [snd] in Hn.
+      eapply word_cmp_trans; eassumption.
+    + constructor; [exact IH|]. apply wlb_pinsert; [exact Hv|]. cbn [snd]. apply word_cmp_gt_lt. exact E.
+Qed.
+
+Lemma fold_pinsert_sorted p : StronglySorted mlt (fold_right pinsert [] p).
+Proof. induction p as [|m p IH]; cbn [fold_right]; [constructor|]. apply pinsert_sorted. exact IH. Qed.
+
+Lemma Forall_filter {A} (P : A -> Prop) (f : A -> bool) l : Forall P l -> Forall P (filter f l).
+Proof.
+  induction 1 as [|x l Hx _ IH]; cbn [filter]; [constructor|].
+  destruct (f x); [constructor; assumption|exact IH].
+Qed.
+
+Lemma filter_sorted {A} (R : A -> A -> Prop) (f : A -> bool) l :
+  StronglySorted R l -> StronglySorted R (filter f l).
+Proof.
+  induction 1 as [|x l _ IH Hx]; cbn [filter]; [constructor|].
+  destruct (f x); [|exact IH]. constructor; [exact IH|]. apply Forall_filter. exact Hx.
+Qed.
+
+Definition nzp (p : poly) : Prop := Forall (fun m => fst m <> c0) p.
+
+Lemma normalize_sorted p : StronglySorted mlt (normalize p).
+Proof. unfold normalize. apply filter_sorted. apply fold_pinsert_sorted. Qed.
+
+Lemma normalize_nz p : nzp (normalize p).
+Proof.
+  unfold normalize, nzp. apply Forall_forall. intros m Hm. apply filter_In in Hm.
+  destruct Hm as [_ Hm]. intro E. rewrite E in Hm. discriminate Hm.
+Qed.
+
+Lemma coef_wlb x p : wlb x p -> coef p x = c0.
+Proof.
+  unfold wlb. induction 1 as [|[c v] t Hv _ IH]; cbn [coef]; [reflexivity|].
+  cbn [snd] in Hv. destruct (word_eqb v x) eqn:E; [|exact IH].
+  apply word_eqb_eq in E. subst v.
+  assert (E : word_cmp x x = Eq) by (apply word_cmp_eq; reflexivity). congruence.
+Qed.
+
+Lemma cadd_cancel_l c x y : cadd c x = cadd c y -> x = y.
+Proof.
+  destruct c, x, y. unfold cadd. cbn [fst snd]. intro H. injection H as H1 H2. f_equal; lia.
+Qed.
+
+Lemma coef_head_sorted c v t : Forall (mlt (c, v)) t -> coef ((c, v) :: t) v = c.
+Proof.
+  intro H. cbn [coef]. rewrite word_eqb_refl, (coef_wlb v t); [apply cadd_0_r|exact H].
+Qed.
+
+Lemma sorted_peq_eq l1 : forall l2, StronglySorted mlt l1 -> StronglySorted mlt l2 ->
+  nzp l1 -> nzp l2 -> peq l1 l2 -> l1 = l2.
+Proof.
+  induction l1 as [|[c v] t1 IH]; intros [|[d u] t2] S1 S2 N1 N2 H.
+  - reflexivity.
+  - exfalso. inversion S2 as [|? ? _ Hu]; subst. inversion N2 as [|? ? Hd _]; subst.
+    apply Hd. exact (eq_sym (eq_trans (H u) (coef_head_sorted d u t2 Hu))).
+  - exfalso. inversion S1 as [|? ? _ Hv]; subst. inversion N1 as [|? ? Hc _]; subst.
+    apply Hc. exact (eq_trans (eq_sym (coef_head_sorted c v t1 Hv)) (H v)).
+  - inversion S1 as [|? ? St1 Hv]; subst. inversion S2 as [|? ? St2 Hu]; subst.
+    inversion N1 as [|? ? Hc Nt1]; subst. inversion N2 as [|? ? Hd Nt2]; subst. cbn [fst] in Hc, Hd.
+    destruct (word_cmp v u) eqn:E.
+    + apply word_cmp_eq in E. subst u.
+      assert (Ecd : c = d).
+      { exact (eq_trans (eq_sym (coef_head_sorted c v t1 Hv))
+                        (eq_trans (H v) (coef_head_sorted d v t2 Hu))). }
+      subst d. f_equal. apply IH; try assumption.
+      intro x. specialize (H x). cbn [coef] in H. destruct (word_eqb v x); [|exact H].
+      eapply cadd_cancel_l. exact H.
+    + exfalso. apply Hc.
+      assert (W : wlb v ((d, u) :: t2)).
+      { constructor; [exact E|]. eapply Forall_impl; [|exact Hu]. intros n Hn. unfold mlt in Hn.
+        cbn [snd] in Hn. eapply word_cmp_trans; eassumption. }
+      exact (eq_trans (eq_sym (coef_head_sorted c v t1 Hv)) (eq_trans (H v) (coef_wlb v _ W))).
+    + exfalso. apply word_cmp_gt_lt in E. apply Hd.
+      assert (W : wlb u ((c, v) :: t1)).
+      { constructor; [exact E|]. eapply Forall_impl; [|exact Hv]. intros n Hn. unfold mlt in Hn.
+        cbn [snd] in Hn. eapply word_cmp_trans; eassumption. }
+      exact (eq_trans (eq_sym (coef_head_sorted d u t2 Hu)) (eq_trans (eq_sym (H u)) (coef_wlb u _ W))).
+Qed.
+
+Lemma list_eqb_refl {A} (eqb : A -> A -> bool) : (forall x, eqb x x = true) ->
+  forall l, list_eqb eqb l l = true.
+Proof. intros H l. induction l as [|x l IH]; cbn [list_eqb]; [reflexivity|]. rewrite H, IH. reflexivity. Qed.
+
+Lemma peqb_complete p q : peq p q -> peqb p q = true.
+Proof.
+  intro H. unfold peqb.
+  assert (E : normalize p = normalize q).
+  { apply sorted_peq_eq; try apply normalize_sorted; try apply normalize_nz.
+    intro x. rewrite !coef_normalize. apply H. }
+  rewrite E. apply list_eqb_refl. intro m. apply mono_eqb_eq. reflexivity.
+Qed.
+
+Lemma peqb_iff p q : peqb p q = true <-> peq p q.
+Proof. split; [apply peqb_sound|apply peqb_complete]. Qed.
